@@ -474,7 +474,9 @@ PROPS.update({
         "proof_module": "FoyerProofs.C01",
         "theorems": ["Foyer.Hyb.recovery_picks_latest", "Foyer.Hyb.recovery_honours_tombstones",
                      "Foyer.Hyb.disk_lookup_own_key_or_miss", "Foyer.Hyb.memory_hit_returns_memory",
-                     "Foyer.Hyb.insAll_max"],
+                     "Foyer.Hyb.insAll_max",
+                     "Foyer.Hyb.woi_stepCore", "Foyer.Hyb.woi_step", "Foyer.Hyb.woi_reads_truth"],
+        "extra_modules": ["FoyerProofs.C01Woi"],
         "monitor_props": ["C01"],
         "campaigns": {
             "quick": [{"name": "hyb-random", "args": ["cases=250", "maxops=25"]},
